@@ -20,8 +20,8 @@ from simkit.world import World, REAL
 PROP = "C18"
 LEVEL = "exploration"
 TIERS = {
-    "quick": dict(runs=1600, timeout=180, max_cmds=6, shrink_seconds=90, shrink_steps=300),
-    "thorough": dict(runs=30000, timeout=240, max_cmds=8, shrink_seconds=300, shrink_steps=800),
+    "quick": dict(runs=1600, wall_cap=240, timeout=180, max_cmds=6, shrink_seconds=90, shrink_steps=300),
+    "thorough": dict(runs=30000, wall_cap=2700, timeout=240, max_cmds=8, shrink_seconds=300, shrink_steps=800),
 }
 
 _real_popen = subprocess.Popen
